@@ -879,14 +879,16 @@ fn pair_oracles(a: &Item, b: &Item, rep: &mut Reporter) {
         Some(w) => {
             rep.count("order_pairs_defined", 1);
             if w != got {
-                let (ca, cb) = blame(&a.v, &b.v);
+                // canonical orientation: the smaller value (by the reference order) first
+                let (x, y, w2, g2) = if w == Ordering::Greater { (b, a, Ordering::Less, got.reverse()) } else { (a, b, w, got) };
+                let (ca, cb) = blame(&x.v, &y.v);
                 rep.violation(
                     "C26",
                     "order",
-                    &format!("C26/order/{pt}/{ca}-vs-{cb}/{}>{}", ord_name(w), ord_name(got)),
-                    case,
-                    &format!("cmp(enc(a),enc(b)) = {:?} (value order of {} vs {})", w, tcls(&a.v), tcls(&b.v)),
-                    &format!("{:?}: enc(a)={} enc(b)={}", got, vcore::util::hex(&a.e), vcore::util::hex(&b.e)),
+                    &format!("C26/order/{pt}/{ca}-vs-{cb}/{}>{}", ord_name(w2), ord_name(g2)),
+                    || json!({"pass": "single", "a": kv2json(&x.v), "b": kv2json(&y.v)}),
+                    &format!("cmp(enc(a),enc(b)) = {:?} (value order of {} vs {})", w2, tcls(&x.v), tcls(&y.v)),
+                    &format!("{:?}: enc(a)={} enc(b)={}", g2, vcore::util::hex(&x.e), vcore::util::hex(&y.e)),
                 );
             }
         }
@@ -960,6 +962,59 @@ fn decode_check(data: &[u8], v: &KV, want_len: usize) -> Result<(), (&'static st
     }
 }
 
+fn rt_fails(v: &KV) -> bool {
+    match enc(v) {
+        Ok(e) => decode_check(&e, v, e.len()).is_err(),
+        Err(_) => true,
+    }
+}
+fn jshrink(j: &J) -> J {
+    let fails = |x: &J| rt_fails(&KV::Json(x.clone()));
+    match j {
+        J::Arr(items) => {
+            for it in items {
+                if fails(it) {
+                    return jshrink(it);
+                }
+            }
+            j.clone()
+        }
+        J::Obj(entries) => {
+            for (_, v) in entries {
+                if fails(v) {
+                    return jshrink(v);
+                }
+            }
+            if entries.len() > 1 {
+                for e in entries {
+                    let single = J::Obj(vec![e.clone()]);
+                    if fails(&single) {
+                        return single;
+                    }
+                }
+            }
+            j.clone()
+        }
+        _ => j.clone(),
+    }
+}
+/// smallest sub-value whose stand-alone round trip still fails (minimal construct to blame)
+fn shrink_roundtrip(v: &KV) -> KV {
+    match v {
+        KV::Json(j) => KV::Json(jshrink(j)),
+        KV::Vector(xs) if xs.len() > 1 => {
+            for x in xs {
+                let one = KV::Vector(vec![*x]);
+                if rt_fails(&one) {
+                    return one;
+                }
+            }
+            v.clone()
+        }
+        _ => v.clone(),
+    }
+}
+
 fn value_oracles(a: &Item, rep: &mut Reporter) {
     let case = || json!({"pass": "single", "a": kv2json(&a.v), "b": kv2json(&a.v)});
     let t = ty(&a.v);
@@ -1017,10 +1072,7 @@ fn value_oracles(a: &Item, rep: &mut Reporter) {
         }
     }
     if let Some((k, msg, ti)) = failed {
-        let c = match &a.v {
-            KV::Json(_) | KV::Vector(_) => cls(&a.v),
-            _ => cls(&a.v),
-        };
+        let c = cls(&shrink_roundtrip(&a.v));
         let trail = if ti == 0 { "alone" } else { "with-trailing-bytes" };
         rep.violation("C26", "roundtrip", &format!("C26/roundtrip/{t}/{c}/{trail}/value+len>{k}"), case, &format!("decode_key(enc(a) ++ trailer) = ({}, {})", tcls(&a.v), a.e.len()), &format!("{msg}; enc(a)={} trailer#{ti}", vcore::util::hex(&a.e)));
     }
@@ -1054,7 +1106,7 @@ fn check_domain(name: &str, dom: &[Item], ctx: &Ctx, rep: &mut Reporter, block: 
 // ---------------------------------------------------------------------------
 fn dom_i64(t: Tier) -> Vec<i64> {
     let mut v: Vec<i64> = vec![0, i64::MIN, i64::MIN + 1, i64::MAX, i64::MAX - 1];
-    let ks: Vec<u32> = t.pick(vec![0, 1, 7, 8, 15, 16, 24, 31, 32, 53, 56, 62], (0..=62).collect());
+    let ks: Vec<u32> = (0..=62).collect();
     for k in ks {
         let p = 1i64 << k;
         for d in [-1i64, 0, 1] {
@@ -1120,8 +1172,12 @@ fn dom_f64(t: Tier) -> Vec<f64> {
         bits.push(*p);
         bits.push(*p | (1u64 << 63));
     }
-    if t == Tier::Thorough {
-        for e in 0..=2046u64 {
+    {
+        let exps: Vec<u64> = match t {
+            Tier::Thorough => (0..=2046u64).collect(),
+            Tier::Quick => [0u64, 1, 2, 3, 1021, 1022, 1023, 1024, 1025, 1026, 1075, 1076, 2044, 2045, 2046].into_iter().chain((0..=2046u64).step_by(97)).collect(),
+        };
+        for e in exps {
             for m in [0u64, 1, 1u64 << 51, (1u64 << 52) - 1] {
                 bits.push((e << 52) | m);
                 bits.push((e << 52) | m | (1u64 << 63));
@@ -1170,13 +1226,13 @@ fn strings<T: Clone>(alpha: &[T], n: usize) -> Vec<Vec<T>> {
 }
 fn dom_blob(t: Tier) -> Vec<Vec<u8>> {
     match t {
-        Tier::Quick => strings(&[0x00u8, 0x01, 0x61, 0xFE, 0xFF], 3),
+        Tier::Quick => strings(&[0x00u8, 0x01, 0x61, 0xFE, 0xFF], 4),
         Tier::Thorough => strings(&[0x00u8, 0x01, 0x02, 0x61, 0x7F, 0x80, 0xFE, 0xFF], 4),
     }
 }
 fn dom_text(t: Tier) -> Vec<String> {
     let s = match t {
-        Tier::Quick => strings(&['\0', '\u{1}', 'a', '\u{ff}', '\u{10ffff}'], 3),
+        Tier::Quick => strings(&['\0', '\u{1}', 'a', '\u{ff}', '\u{10ffff}'], 4),
         Tier::Thorough => strings(&['\0', '\u{1}', 'a', '\u{7f}', '\u{80}', '\u{ff}', '\u{ffff}', '\u{10ffff}'], 4),
     };
     s.into_iter().map(|c| c.into_iter().collect()).collect()
@@ -1388,9 +1444,9 @@ fn composite_domain(cols: usize, t: Tier) -> Vec<KV> {
         KV::Blob(vec![0x00]),
         KV::Blob(vec![0xFF]),
     ];
-    if cols == 2 || t == Tier::Thorough {
+    {
         d.extend([
-            // the trickiest first (the 3-column thorough domain is the first 26 values)
+            // the trickiest first (the 3-column domain is the first 18 (quick) / 26 (thorough) values)
             KV::Blob(vec![0x00, 0xFF]),
             KV::Blob(vec![0xFF, 0x00]),
             KV::Blob(vec![0x00, 0x00]),
@@ -1435,7 +1491,7 @@ fn composite_domain(cols: usize, t: Tier) -> Vec<KV> {
             KV::Vector(vec![0.0, 0.0]),
         ]);
         if cols == 3 {
-            d.truncate(26);
+            d.truncate(t.pick(18, 26));
         }
     }
     d
@@ -1810,6 +1866,11 @@ fn sql_order(st: &SqlTy, tier: Tier, ctx: &Ctx, rep: &mut Reporter) {
         } else if got == twin {
             // same answer without the index: not a key-encoding matter (SQL semantics, other properties)
             rep.count("sql_lookup_wrong_with_and_without_index_not_attributed", 1);
+        } else if lookup_ok_on_single_row_table(st, i, lit, ctx) {
+            // the same literal finds the same stored value through the same kind of index when it is
+            // the only row: both encoders agree, the miss is a B-tree navigation matter (C28/C10)
+            rep.count("sql_lookup_misses_in_big_index_but_found_in_single_row_index_not_attributed", 1);
+            rep.note(&format!("sql: '{}' missed {} value {} through index ic of the {}-row table although the row is in the index (ORDER BY scan shows it) and the same lookup succeeds on a 1-row table: B-tree seek defect, not key encoding", vcore::util::clip(&sql, 80), tname, scls(&st.vals[i]), inserted.len()));
         } else {
             let kind = match &got {
                 None => "error",
@@ -1828,6 +1889,21 @@ fn sql_order(st: &SqlTy, tier: Tier, ctx: &Ctx, rep: &mut Reporter) {
             );
         }
     }
+}
+
+fn lookup_ok_on_single_row_table(st: &SqlTy, i: usize, lit: &str, ctx: &Ctx) -> bool {
+    let Ok(t) = TestDb::create(&ctx.scratch, &format!("one_{}", st.name)) else { return false };
+    if !t.exec(&format!("CREATE TABLE t(id INT PRIMARY KEY, c {})", st.decl)).ok() || !t.exec("CREATE INDEX ic ON t(c)").ok() {
+        return false;
+    }
+    if !exec_params(t.db(), "INSERT INTO t VALUES (?, ?)", &[OwnedValue::Int(i as i64), st.vals[i].ov.clone()]).ok() {
+        return false;
+    }
+    let sql = format!("SELECT id FROM t WHERE c = {lit}");
+    if !explain(t.db(), &sql).unwrap_or_default().contains("SecondaryIndexScan on t using ic") {
+        return false;
+    }
+    ids_of(&t.exec(&sql)) == Some(vec![i as i64])
 }
 
 fn fresh_unique(ctx: &Ctx, name: &str, decl: &str) -> Option<TestDb> {
@@ -1991,4 +2067,326 @@ fn sql_composite(which: usize, tier: Tier, ctx: &Ctx, rep: &mut Reporter) {
     rep.outcome(&format!("sql-composite:{}", if reported == 0 { "sorted" } else { "inverted" }));
 }
 
-//@@PART7@@
+// ---------------------------------------------------------------------------
+// types::Value::encode_to_key (pub): agreement with key.rs + distinctness
+// ---------------------------------------------------------------------------
+fn valuekey_pass(rep: &mut Reporter) {
+    use std::borrow::Cow;
+    use turdb::types::Value as TV;
+    let vk = |v: &TV| -> Result<Vec<u8>, String> {
+        vcore::catch(|| {
+            let mut b = Vec::new();
+            v.encode_to_key(&mut b);
+            b
+        })
+    };
+    // (a) shared scalar types produce exactly the key.rs encoding
+    let mut shared: Vec<(KV, TV)> = Vec::new();
+    shared.push((KV::Null, TV::Null));
+    for n in dom_i64(Tier::Quick) {
+        shared.push((KV::Int(n), TV::Int(n)));
+    }
+    for f in dom_f64(Tier::Quick) {
+        shared.push((KV::Float(f), TV::Float(f)));
+    }
+    for s in dom_text(Tier::Quick) {
+        shared.push((KV::Text(s.clone()), TV::Text(Cow::Owned(s))));
+    }
+    for b in dom_blob(Tier::Quick) {
+        shared.push((KV::Blob(b.clone()), TV::Blob(Cow::Owned(b))));
+    }
+    for u in fixed::<16>() {
+        shared.push((KV::Uuid(u), TV::Uuid(u)));
+    }
+    for m in [i32::MIN, -1, 0, 1, i32::MAX] {
+        for u in [i64::MIN, -1, 0, 1, i64::MAX] {
+            shared.push((KV::Interval(m, -m.max(-5), u), TV::Interval { micros: u, days: -m.max(-5), months: m }));
+        }
+    }
+    for (k, v) in &shared {
+        let want = enc(k);
+        let got = vk(v);
+        rep.count("valuekey_agreement_checked", 1);
+        if want.is_err() || want != got {
+            rep.violation(
+                "C26",
+                "valuekey",
+                &format!("C26/valuekey/{}/{}/same-as-key.rs>different", ty(k), cls(k)),
+                || json!({"pass": "valuekey"}),
+                &format!("{:?}", want.as_ref().map(|b| vcore::util::hex(b))),
+                &format!("{:?}", got.as_ref().map(|b| vcore::util::hex(b))),
+            );
+        }
+    }
+    rep.bulk(shared.len() as u64, shared.len() as u64);
+    // (b) the other variants: distinct values give distinct keys
+    let mut groups: Vec<(&str, Vec<(String, TV)>)> = Vec::new();
+    groups.push(("macaddr", fixed::<6>().into_iter().map(|m| (bclass_long(&m), TV::MacAddr(m))).collect()));
+    groups.push(("inet4", fixed::<4>().into_iter().map(|m| (bclass_long(&m), TV::Inet4(m))).collect()));
+    groups.push(("inet6", fixed::<16>().into_iter().map(|m| (bclass_long(&m), TV::Inet6(m))).collect()));
+    let mut g = Vec::new();
+    for m in [i64::MIN, -1, 0, 1, i64::MAX] {
+        for z in [i32::MIN, -65536, -3600, 0, 3600, 65536, i32::MAX] {
+            g.push((format!("{}_tz-{}", iclass(m), i32class(z)), TV::TimestampTz { micros: m, offset_secs: z }));
+        }
+    }
+    groups.push(("timestamptz", g));
+    let mut g = Vec::new();
+    for a in [0u16, 1, 255, 256, u16::MAX] {
+        for b in [0u16, 1, 255, 256, u16::MAX] {
+            g.push((format!("t{a}_o{b}"), TV::Enum { type_id: a, ordinal: b }));
+        }
+    }
+    groups.push(("enum", g));
+    let mut g = Vec::new();
+    for d in [i128::MIN, -256, -1, 0, 1, 255, 1i128 << 64, i128::MAX] {
+        for s in [i16::MIN, -1, 0, 1, 2, i16::MAX] {
+            g.push((format!("digits-{}_scale-{}", if d == i128::MIN { "min".to_string() } else if d == i128::MAX { "max".to_string() } else if d == 1i128 << 64 { "pos-2^64".to_string() } else { iclass(d as i64) }, iclass(s as i64)), TV::Decimal { digits: d, scale: s }));
+        }
+    }
+    groups.push(("decimal", g));
+    for (name, g) in &groups {
+        let encs: Vec<Result<Vec<u8>, String>> = g.iter().map(|(_, v)| vk(v)).collect();
+        for i in 0..g.len() {
+            for j in i + 1..g.len() {
+                rep.count("valuekey_distinct_pairs", 1);
+                if encs[i].is_err() || encs[i] == encs[j] {
+                    rep.violation("C26", "valuekey", &format!("C26/valuekey/{name}/{}-vs-{}/distinct-keys>same-key", g[i].0, g[j].0), || json!({"pass": "valuekey"}), "distinct keys", &format!("{:?}", encs[i]));
+                }
+            }
+        }
+        let n = g.len() as u64;
+        rep.bulk(n * (n - 1) / 2, n * (n - 1) / 2);
+    }
+}
+
+// ---------------------------------------------------------------------------
+// the check
+// ---------------------------------------------------------------------------
+struct C26;
+
+fn apply_opts(ctx: &Ctx) {
+    if ctx.opt("plant") == Some("floatbits") {
+        PLANT.store(1, std::sync::atomic::Ordering::Relaxed);
+    }
+}
+
+impl Check for C26 {
+    fn specs(&self) -> Vec<Spec> {
+        let mut s = Spec::new(
+            "C26",
+            "exploration",
+            "a case is one unordered pair of values (or of 2-/3-column tuples) taken from stated finite boundary domains, evaluated on the real encoders/decoder of src/encoding/key.rs: per encodable type every pair of the type's domain (ints: 0, +-(2^k-1,2^k,2^k+1) for 12 (quick) / all 63 (thorough) k, i64 MIN/MAX+-1; floats: +-0, subnormal min/max, min normal, around 1, 2^53, 2^63, max, inf, quiet/signalling/negative NaN, thorough: every exponent x 4 mantissas x sign; text: every string of <=3 chars over {U+0,U+1,a,U+FF,U+10FFFF} (thorough <=4 over 8 chars); blob: every byte string of <=3 over {00,01,61,FE,FF} (thorough <=4 over 8 bytes); dates/times/timestamps/timestamptz/intervals/uuid/macaddr/inet/enum boundary grids; JSON scalars, arrays <=2 (3) over 12 elements, objects <=2 entries over 20 (49) key/value entries incl. empty and NUL keys; arrays <=3, tuples/composites <=2 over an 11(15)-element mixed mini-domain; domains; ranges; vectors of dimension <=2 (3) over 14 f32 classes), every int x float pair, representatives of every type against every other type, every pair of 2-column tuples over 56 values and of 3-column tuples over 14 (26) values; plus, per value, decoding with 10 trailing-byte variants. Through SQL (Database::encode_value_as_key is pub(crate)): per SQL type a table with a secondary index filled with the whole domain in scrambled order, index order read back with ORDER BY answered by SecondaryIndexScan (asc+desc), point lookups through the index for literal-capable types, a UNIQUE column accepting all distinct and rejecting all equal values, four composite (c1,c2) indexes. Distinct = distinct value pair by construction of the enumeration; non-trivial = the two values differ.",
+        );
+        s.assumptions = &[
+            "reference order is written from the module docs of src/encoding/key.rs: type rank = documented prefix groups; numbers: -inf < negatives < zero < positives < +inf < NaN, int 0 / float +-0 share one key and decode as Int(0); text/blob bytewise; struct-like types (timestamptz, interval, enum, domain, composite) field-wise in encoded field order; arrays/tuples/JSON arrays/objects lexicographic with a shorter prefix first; JSON kinds ranked by their documented prefixes",
+            "tolerated (counted, not demanded): order of int vs float of the same sign, order/distinctness of -0 vs +0 and of NaN payloads inside JSON numbers and vector components, order of inet, range and of vectors of different dimension (the docs define none); all f64 NaNs are one value",
+            "SQL pass: only plans that EXPLAIN reports as SecondaryIndexScan are judged; a wrong point lookup that is equally wrong on an unindexed twin table is not attributed to key encoding",
+            "encoders are called through the pub functions of turdb::encoding::key; Database::encode_value_as_key is reachable only through SQL",
+        ];
+        s.cap_quick_s = 90;
+        s.cap_thorough_s = 1500;
+        vec![s]
+    }
+
+    fn run(&self, ctx: &Ctx, rep: &mut Reporter) {
+        apply_opts(ctx);
+        let tier = ctx.tier;
+        let mut block = 0u64;
+        for c in ["order_pairs_defined", "decode_calls", "pairs_sharing_a_key_as_documented", "composite_pairs_defined", "composite_decode_calls", "sql_order_index_plans", "sql_lookup_index_plans", "sql_unique_accepts", "sql_unique_rejects_of_equal_values", "sql_composite_index_plans", "encode_value_dispatch_checked", "valuekey_agreement_checked"] {
+            rep.expect_nonzero(c);
+        }
+        // ---- SQL first (few, long blocks: spread them over the workers) ----
+        let stypes = sql_types(tier);
+        for st in &stypes {
+            for scn in ["order", "unique"] {
+                block += 1;
+                if ctx.mine(block) {
+                    if scn == "order" {
+                        sql_order(st, tier, ctx, rep);
+                    } else {
+                        sql_unique(st, tier, ctx, rep);
+                    }
+                    rep.case(vcore::util::hash_of(&("sql", st.name, scn)), true);
+                }
+            }
+        }
+        for which in 0..4 {
+            block += 1;
+            if ctx.mine(block) {
+                sql_composite(which, tier, ctx, rep);
+                rep.case(vcore::util::hash_of(&("sql-composite", which)), true);
+            }
+        }
+        block += 1;
+        if ctx.mine(block) {
+            valuekey_pass(rep);
+        }
+        // ---- single ----
+        for (name, vals) in single_domains(tier) {
+            let dom = items(vals, rep);
+            if !check_domain(name, &dom, ctx, rep, &mut block) {
+                return;
+            }
+        }
+        rep.sample(|| json!({"pass": "single", "a": kv2json(&KV::Blob(vec![0x00, 0xFF])), "b": kv2json(&KV::Blob(vec![0x00]))}));
+        // ---- cross ----
+        let dom = items(cross_domain(tier), rep);
+        if !check_domain("cross", &dom, ctx, rep, &mut block) {
+            return;
+        }
+        // ---- composite ----
+        for cols in [2usize, 3] {
+            if !composite_pass(cols, ctx, rep, &mut block) {
+                return;
+            }
+        }
+        rep.sample(|| json!({"pass": "composite", "a": [kv2json(&KV::Text("a".into())), kv2json(&KV::Int(0))], "b": [kv2json(&KV::Text("a\0".into())), kv2json(&KV::Null)]}));
+    }
+
+    fn replay(&self, ctx: &Ctx, case: &Value, rep: &mut Reporter) {
+        apply_opts(ctx);
+        let tier = match case["tier"].as_str() {
+            Some("thorough") => Tier::Thorough,
+            Some("quick") => Tier::Quick,
+            _ => ctx.tier,
+        };
+        match case["pass"].as_str().unwrap_or("") {
+            "single" => {
+                let (Some(a), Some(b)) = (json2kv(&case["a"]), json2kv(&case["b"])) else {
+                    rep.note("replay: unparsable case");
+                    rep.case(0, false);
+                    return;
+                };
+                let it = items(vec![a, b], rep);
+                if it.len() == 2 {
+                    value_oracles(&it[0], rep);
+                    value_oracles(&it[1], rep);
+                    pair_oracles(&it[0], &it[1], rep);
+                }
+                rep.case(1, true);
+            }
+            "composite" => {
+                let parse = |v: &Value| -> Option<Vec<KV>> { v.as_array()?.iter().map(json2kv).collect() };
+                let (Some(a), Some(b)) = (parse(&case["a"]), parse(&case["b"])) else {
+                    rep.case(0, false);
+                    return;
+                };
+                let (ia, ib) = (items(a, rep), items(b, rep));
+                let (ra, rb): (Vec<&Item>, Vec<&Item>) = (ia.iter().collect(), ib.iter().collect());
+                let (ea, eb) = (concat(&ra), concat(&rb));
+                tuple_decode_oracle(&ra, &ea, rep);
+                if ra.len() == rb.len() {
+                    tuple_pair_oracle(&ra, &rb, &ea, &eb, rep);
+                }
+                rep.case(2, true);
+            }
+            "sql" => {
+                let scn = case["scenario"].as_str().unwrap_or("");
+                if scn == "composite" {
+                    sql_composite(case["which"].as_u64().unwrap_or(0) as usize, tier, ctx, rep);
+                } else {
+                    let name = case["type"].as_str().unwrap_or("");
+                    if let Some(st) = sql_types(tier).iter().find(|s| s.name == name) {
+                        if scn == "unique" {
+                            sql_unique(st, tier, ctx, rep);
+                        } else {
+                            sql_order(st, tier, ctx, rep);
+                        }
+                    }
+                }
+                rep.case(3, true);
+            }
+            "valuekey" => {
+                valuekey_pass(rep);
+            }
+            _ => {
+                rep.note("replay: unknown pass");
+                rep.case(0, false);
+            }
+        }
+    }
+}
+
+// ---------------------------------------------------------------------------
+// developer probe: C26_PROBE=1 c26 "<sql>;;<sql> ## i:1 | f:nan" (not part of the check)
+// ---------------------------------------------------------------------------
+fn parse_param(s: &str) -> OwnedValue {
+    let s = s.trim();
+    let (k, v) = s.split_once(':').unwrap_or((s, ""));
+    let fixedn = |n: usize| {
+        let mut b = vcore::util::unhex(v);
+        b.resize(n, 0);
+        b
+    };
+    match k {
+        "i" => OwnedValue::Int(v.parse().unwrap_or(0)),
+        "f" => OwnedValue::Float(match v {
+            "nan" => f64::NAN,
+            "inf" => f64::INFINITY,
+            "-inf" => f64::NEG_INFINITY,
+            "-0" => -0.0,
+            _ => v.parse().unwrap_or(0.0),
+        }),
+        "t" => OwnedValue::Text(String::from_utf8(vcore::util::unhex(v)).unwrap_or_default()),
+        "s" => OwnedValue::Text(v.to_string()),
+        "b" => OwnedValue::Blob(vcore::util::unhex(v)),
+        "bool" => OwnedValue::Bool(v == "1"),
+        "date" => OwnedValue::Date(v.parse().unwrap_or(0)),
+        "time" => OwnedValue::Time(v.parse().unwrap_or(0)),
+        "ts" => OwnedValue::Timestamp(v.parse().unwrap_or(0)),
+        "tstz" => {
+            let (a, b) = v.split_once(',').unwrap_or((v, "0"));
+            OwnedValue::TimestampTz(a.parse().unwrap_or(0), b.parse().unwrap_or(0))
+        }
+        "uuid" => OwnedValue::Uuid(fixedn(16).try_into().unwrap_or([0; 16])),
+        "mac" => OwnedValue::MacAddr(fixedn(6).try_into().unwrap_or([0; 6])),
+        "vec" => OwnedValue::Vector(v.split(',').map(|x| x.parse().unwrap_or(0.0)).collect()),
+        _ => OwnedValue::Null,
+    }
+}
+fn probe() {
+    vcore::quiet_panics();
+    let base = std::path::PathBuf::from(format!("/dev/shm/turdb_verif/c26probe_{}", std::process::id()));
+    let t = TestDb::create(&base, "db").expect("create");
+    for arg in std::env::args().skip(1) {
+        for stmt in arg.split(";;") {
+            let s = stmt.trim();
+            if s.is_empty() {
+                continue;
+            }
+            let r = if let Some((sql, ps)) = s.split_once("##") {
+                let params: Vec<OwnedValue> = ps.split('|').map(parse_param).collect();
+                exec_params(t.db(), sql.trim(), &params)
+            } else {
+                t.exec(s)
+            };
+            match &r {
+                Res::Rows(rows) => {
+                    println!("{s}\n    => {} rows", rows.len());
+                    for r in rows {
+                        let cells: Vec<String> = r
+                            .iter()
+                            .map(|v| match v {
+                                refmodel::val::V::Text(s) => format!("'{s}'"),
+                                o => o.show(),
+                            })
+                            .collect();
+                        println!("       ({})", cells.join(", "));
+                    }
+                }
+                o => println!("{s}\n    => {}", o.show()),
+            }
+        }
+    }
+    drop(t);
+    let _ = std::fs::remove_dir_all(&base);
+}
+
+fn main() {
+    if std::env::var("C26_PROBE").is_ok() {
+        probe();
+        return;
+    }
+    vcore::main(&C26)
+}
